@@ -152,6 +152,9 @@ func kill(p process, name string, deadline time.Time) error {
 	// which means the process is terminated
 	case <-p.termination:
 		log.Debugf("Process %s already terminated.", name)
+		// what the process left behind in its group must go too; Exec made
+		// it the leader of its own group, so the group id is its pid
+		_ = syscall.Kill(-p.pid, syscall.SIGKILL)
 		return nil
 	default:
 		log.Infof("Sending SIGKILL to %s(%d).", name, p.pid)
@@ -167,7 +170,9 @@ func kill(p process, name string, deadline time.Time) error {
 		// Negative pid sends signal to all in process group
 		syscall.Kill(-pgid, syscall.SIGKILL)
 	} else {
-		syscall.Kill(p.pid, syscall.SIGKILL)
+		// the process itself is gone already (reaped), members of its
+		// group may still be there
+		syscall.Kill(-p.pid, syscall.SIGKILL)
 	}
 
 	ctx, cancel := context.WithDeadline(context.Background(), deadline)
